@@ -24,7 +24,7 @@ theorem status_miss_iff (c : Cow) (dur : Int) (k : Key) :
     all_goals simp
 
 /-- duration zero: whatever is cached is a hit, for ever -/
-theorem dur0_hit (c : Cow) (k : Key) (lf : ObjId) (h : c.s.l.lookup k = some lf) :
+theorem dur0_hit (c : Cow) (k : Key) (lf : Nat) (h : c.s.l.lookup k = some lf) :
     cacheStatus c 0 k = .hit := by
   unfold cacheStatus; simp [h]
 
@@ -62,7 +62,7 @@ theorem dur_pos_stale_iff (c : Cow) (dur : Int) (k : Key) (hd : dur ≠ 0) :
         exact absurd h3 hexp
 
 /-- a cached copy younger than the duration is a hit, whatever the base looks like -/
-theorem dur_pos_hit_of_fresh (c : Cow) (dur : Int) (k : Key) (lf : ObjId) (h : c.s.l.lookup k = some lf)
+theorem dur_pos_hit_of_fresh (c : Cow) (dur : Int) (k : Key) (lf : Nat) (h : c.s.l.lookup k = some lf)
     (hfresh : ¬ (c.s.l.obj lf).mtime + dur < c.s.l.now) : cacheStatus c dur k = .hit := by
   unfold cacheStatus
   simp only [h]
@@ -71,7 +71,7 @@ theorem dur_pos_hit_of_fresh (c : Cow) (dur : Int) (k : Key) (lf : ObjId) (h : c
   · simp [hd, hfresh]
 
 /-- an expired copy whose base is not newer is still a hit -/
-theorem dur_pos_hit_of_base_not_newer (c : Cow) (dur : Int) (k : Key) (lf bf : ObjId)
+theorem dur_pos_hit_of_base_not_newer (c : Cow) (dur : Int) (k : Key) (lf bf : Nat)
     (hl : c.s.l.lookup k = some lf) (hb : c.s.b.lookup k = some bf)
     (hn : ¬ (c.s.b.obj bf).mtime > (c.s.l.obj lf).mtime) : cacheStatus c dur k = .hit := by
   unfold cacheStatus
@@ -84,7 +84,7 @@ theorem dur_pos_hit_of_base_not_newer (c : Cow) (dur : Int) (k : Key) (lf bf : O
 /-! ### Open routes by the classification -/
 
 /-- a hit on a regular file is served from the cache layer -/
-theorem hit_serves_cache (c : Cow) (dur : Int) (p : Str) (lf : ObjId)
+theorem hit_serves_cache (c : Cow) (dur : Int) (p : Str) (lf : Nat)
     (hst : cacheStatus c dur (keyOfStr p) = .hit) (hl : c.s.l.lookup (keyOfStr p) = some lf)
     (hfile : (c.s.l.obj lf).dir = false) :
     Cache.open_ c dur p = Cache.layerOpen c (keyOfStr p) := by
@@ -103,7 +103,7 @@ theorem layerOpen_indep_base (c : Cow) (k : Key) (b' : MemFs) :
 /-- **dur = 0 is sticky.** Once a file is in the cache layer, with cache duration zero a read
     through the cache is served from the cache layer and is the same whatever has happened to the
     base in the meantime (any base state `b'`) and whatever the clock says. -/
-theorem dur0_sticky (c : Cow) (p : Str) (lf : ObjId) (b' : MemFs)
+theorem dur0_sticky (c : Cow) (p : Str) (lf : Nat) (b' : MemFs)
     (hl : c.s.l.lookup (keyOfStr p) = some lf) (hfile : (c.s.l.obj lf).dir = false) :
     (Cache.open_ (Cache.setB c b') 0 p).2 = (Cache.open_ c 0 p).2 ∧
     (Cache.open_ (Cache.setB c b') 0 p).1.s.l = (Cache.open_ c 0 p).1.s.l := by
@@ -114,7 +114,7 @@ theorem dur0_sticky (c : Cow) (p : Str) (lf : ObjId) (b' : MemFs)
   exact layerOpen_indep_base c (keyOfStr p) b'
 
 /-- a miss on a regular base file: copy to the layer, then serve from the layer -/
-theorem miss_routes (c : Cow) (dur : Int) (p : Str) (bf : ObjId)
+theorem miss_routes (c : Cow) (dur : Int) (p : Str) (bf : Nat)
     (hst : cacheStatus c dur (keyOfStr p) = .miss) (hb : c.s.b.lookup (keyOfStr p) = some bf)
     (hfile : (c.s.b.obj bf).dir = false) :
     Cache.open_ c dur p = Cache.copyThenOpen c p (keyOfStr p) := by
@@ -122,7 +122,7 @@ theorem miss_routes (c : Cow) (dur : Int) (p : Str) (bf : ObjId)
   simp [hst, hb, hfile]
 
 /-- a stale regular file: refresh the cached copy from the base, then serve from the layer -/
-theorem stale_routes (c : Cow) (dur : Int) (p : Str) (bf : ObjId)
+theorem stale_routes (c : Cow) (dur : Int) (p : Str) (bf : Nat)
     (hst : cacheStatus c dur (keyOfStr p) = .stale) (hb : c.s.b.lookup (keyOfStr p) = some bf)
     (hfile : (c.s.b.obj bf).dir = false) :
     Cache.open_ c dur p = Cache.copyThenOpen c p (keyOfStr p) := by
@@ -138,7 +138,7 @@ theorem absent_notexist (c : Cow) (dur : Int) (p : Str)
 
 /-- **directories are never copied**: opening an uncached base directory goes to the base and
     leaves the cache layer exactly as it was -/
-theorem dirs_never_copied (c : Cow) (dur : Int) (p : Str) (bf : ObjId)
+theorem dirs_never_copied (c : Cow) (dur : Int) (p : Str) (bf : Nat)
     (hl : c.s.l.lookup (keyOfStr p) = none) (hb : c.s.b.lookup (keyOfStr p) = some bf)
     (hdir : (c.s.b.obj bf).dir = true) :
     (Cache.open_ c dur p).1.s.l = c.s.l := by
